@@ -385,6 +385,26 @@ def check_bind_outside_try(ctx, r):
                     ctx.ok("C07.3", f.qualname, "signature.bind is outside every converting handler")
     ctx.counters["bind_sites"] = n
     ctx.floor("C07.3", "bind_sites", 2)
+    # the signature the wrapper binds against and the one the annotations are matched to are the *same* view of `fn`: `inspect.signature(fn)`
+    # follows `__wrapped__`, and so does `get_type_hints`.  With `follow_wrapped=False` a `functools.wraps` decorator between jaxtyped and the
+    # annotated function yields `(*args, **kwargs)`: no annotation finds its parameter, every argument goes unchecked and the body runs
+    jt = m.func("_decorator.jaxtyped")
+    for c in ast.walk(jt.node):
+        if isinstance(c, ast.Call) and norm(c.func).split(".")[-1] == "signature":
+            for k in c.keywords:
+                if k.arg == "follow_wrapped" and isinstance(k.value, ast.Constant) and k.value.value is False:
+                    ctx.bad("C07.3", jt, c, f"`{short(c, 60)}`: the signature is taken without following `__wrapped__`, while the annotations (get_type_hints) are those of the wrapped "
+                            "function: under any `functools.wraps` decorator the parameters are `*args, **kwargs`, no annotation is attached to them and ill-typed arguments run the body",
+                            construct="inspect.signature(.., follow_wrapped=False)")
+    # the checkers are called with ONE `**` mapping: a second one (`**kwargs, **{output_name: out}`) raises TypeError ("multiple values") when a
+    # function with a `**kwargs` parameter is called with a keyword that equals the generated name -- after the body has run, as a TypeCheckError
+    for f in w["wraps"] + w["impl"]:
+        for c in m.calls_in(f):
+            stars = [k for k in c.keywords if k.arg is None]
+            if len(stars) >= 2 and any(isinstance(k.value, ast.Name) and k.value.id == "kwargs" for k in stars):
+                ctx.bad("C07.3", f, c, f"`{short(c, 70)}` passes the caller's keywords and a second `**` mapping: a caller keyword equal to a key of the second mapping (a function with "
+                        "`**kwargs` called with `ret0=..`) makes the call raise TypeError, reported as a TypeCheckError after the body has already run",
+                        construct="two ** mappings in one call")
 
 
 # ------------------------------------------------------------------------ C07.4
